@@ -42,7 +42,10 @@ def child_main(prop, jobname, params_json, out_path, seed):
     from harness import common
     mod = importlib.import_module('harness.' + prop)
     params = json.loads(params_json)
-    spec = [j for j in mod.jobs(params.get('_tier', 'quick')) if j['name'] == jobname][0]
+    specs = mod.jobs(params.get('_tier', 'quick'))
+    exact = [j for j in specs if j['name'] == jobname]
+    # development aid: an unregistered job name runs the function of the registered job with the longest common prefix
+    spec = exact[0] if exact else max(specs, key=lambda j: len(os.path.commonprefix([j['name'], jobname])))
     res = {'job': jobname, 'property': prop, 'params': params}
     t0 = time.time()
     try:
@@ -93,7 +96,7 @@ def run_replay(prop, cex, path=None, seeds=None, timeout_s=30):
         fd, path = tempfile.mkstemp(suffix='.json', dir=scratch_dir())
         os.close(fd)
         json.dump(cex, open(path, 'w'))
-    seeds = seeds or list(range(0, 12))   # stops at the first seed that reproduces
+    seeds = seeds or list(range(0, int(rp.get('nseeds', 12))))   # stops at the first seed that reproduces
     details = []
     try:
         for s in seeds:
@@ -241,6 +244,8 @@ def main(argv=None):
     inconclusive = []
     harness_errors = []
     replays_done = 0
+    skipped_replays = 0
+    unreplayed_jobs = []
     for r in final:
         if r['status'] != 'done':
             harness_errors.append('%s: %s: %s' % (r['job'], r['status'], r.get('error', '')[:600]))
@@ -248,12 +253,18 @@ def main(argv=None):
         for inc in r.get('inconclusive', []):
             inconclusive.append('%s: %s (%s)' % (r['job'], inc['obligation'], inc['reason']))
         reproduced_here = 0
+        failed_here = 0
         for cex in r.get('violations', []):
             cex['job'] = r['job']
-            if reproduced_here >= 3:
-                continue        # enough reproduced counterexamples for this job; the rest are not replayed
+            # replay budget: one reproduced counterexample per job is enough to report (the others of that job are
+            # listed unreplayed in the evidence); after 3 non-reproducing ones the job is a harness error anyway;
+            # after 6 reproduced violations over the whole check the remaining jobs are not replayed
+            if reproduced_here >= 1 or failed_here >= 3 or len(violations) >= 6:
+                skipped_replays += 1
+                continue
             ok, detail = run_replay(prop, cex)
             reproduced_here += 1 if ok else 0
+            failed_here += 0 if ok else 1
             replays_done += 1
             cex['replay_detail'] = detail
             if ok:
@@ -263,6 +274,8 @@ def main(argv=None):
             else:
                 harness_errors.append('%s: counterexample for %r did NOT reproduce natively (encoding or oracle wrong): %s | %s' %
                                       (r['job'], cex['obligation'], json.dumps(cex['input'])[:600], detail[:600]))
+        if r.get('violations') and not reproduced_here and not failed_here and len(violations) >= 6:
+            unreplayed_jobs.append(r['job'])
 
     for r in final:
         if r['status'] == 'done' and r.get('differential_mismatch') and not any(v['job'] == r['job'] for v in violations):
@@ -291,6 +304,9 @@ def main(argv=None):
         print(l)
     nob = sum(r.get('obligations', 0) for r in final)
     ndis = sum(r.get('discharged', 0) for r in final)
+    if skipped_replays:
+        print('note: %d further counterexamples were not replayed (replay budget); jobs with unreplayed counterexamples only: %s' %
+              (skipped_replays, ', '.join(unreplayed_jobs[:20]) or '-'))
     print('%s tier=%s jobs=%d obligations=%d discharged=%d violations=%d inconclusive=%d harness_errors=%d wall=%.1fs' %
           (prop, tier, len(final), nob, ndis, len(vio_lines), len(inconclusive), len(harness_errors), time.time() - t0))
     if vio_lines:
